@@ -21,7 +21,7 @@ RULE = (
     "(a) every pair from (2 platforms + all registered boards + generated near-miss names)^2 is passed to "
     "validate_platform_board and compared with the oracle 'board in SUPPORTED_PLATFORMS[platform]' computed from "
     "the two frozensets; non-trivial = a pair involving a near-miss name or a board of the other platform. "
-    "(b) Hypothesis draws (port, library list, source text, registered pair, pre-existing directory state); "
+    "(b) Hypothesis draws (port, library list, source text, registered pair, directory state: fresh, foreign old files, or re-used after an earlier write_project call with a related source - other line endings, longer, shorter, BOM - and other libraries/port); "
     "write_project output is read back with configparser(interpolation=None) and byte comparison; non-trivial = "
     "library list with a duplicate/empty entry, or port/source containing INI-significant or non-ASCII characters. "
     "distinct = distinct case hash."
@@ -156,6 +156,18 @@ def _snapshot(root):
     return snap
 
 
+VARIANTS = ["same", "crlf", "cr", "longer", "shorter", "bom", "trailing_space"]
+
+
+def source_variant(src, kind):
+    if "\n" not in src:
+        src_nl = src + "\n// x\n"
+    else:
+        src_nl = src
+    return {"same": src, "crlf": src_nl.replace("\r\n", "\n").replace("\n", "\r\n"), "cr": src_nl.replace("\r\n", "\n").replace("\n", "\r"), "longer": src + src + "// tail\n",
+            "shorter": src[: len(src) // 2], "bom": "\ufeff" + src, "trailing_space": src.replace("\n", " \n")}[kind]
+
+
 def eval_roundtrip(pio, case):
     """Return list of failures for one write_project case."""
     from pathlib import Path
@@ -173,6 +185,12 @@ def eval_roundtrip(pio, case):
             (proj / "src").mkdir(parents=True)
             (proj / "src" / "main.cpp").write_text("OLD CONTENT THAT IS LONGER THAN NEW" * 3)
             (proj / "platformio.ini").write_text("[env:old]\nboard = old\nlib_deps =\n  Old\n" * 3)
+            (proj / "other.txt").write_text("user file")
+        if case["pre"] == 2:
+            # history: the directory is re-used; an earlier call wrote a *related* project (same text in another line-ending style, a longer
+            # text, other libraries / port): the later call must still leave exactly its own arguments on disk
+            prev = case["prev"]
+            pio.write_project(proj, source_variant(case["source"], prev["variant"]), prev["port"], platform=case["platform"], board=case["board"], lib_deps=prev["libs"])
             (proj / "other.txt").write_text("user file")
         before = _snapshot(outer)
         kwargs = dict(platform=case["platform"], board=case["board"])
@@ -237,7 +255,8 @@ def roundtrip_shard(pio, seed, n):
     pairs = sorted((p, b) for b, p in pio.BOARD_TO_PLATFORM.items())
     case_st = st.fixed_dictionaries({
         "pair": st.sampled_from(pairs), "port": port_st, "libs": libs_st, "source": source_st,
-        "pre": st.integers(0, 1), "nested": st.integers(0, 1), "as_iter": st.booleans(), "pass_none": st.booleans(),
+        "pre": st.integers(0, 2), "nested": st.integers(0, 1), "as_iter": st.booleans(), "pass_none": st.booleans(),
+        "prev": st.fixed_dictionaries({"variant": st.sampled_from(VARIANTS), "port": port_st, "libs": libs_st}),
     })
 
     @hseed(seed)
@@ -254,6 +273,8 @@ def roundtrip_shard(pio, seed, n):
             r.count("port_with_ini_significant_char")
         if any(ord(ch) > 127 for ch in case["source"]):
             r.count("source_non_ascii")
+        if case["pre"] == 2:
+            r.count("reused_directory:" + case["prev"]["variant"])
         if fails:
             r.failures.extend(fails)
             raise AssertionError(fails[0]["bucket"])
